@@ -10,7 +10,7 @@ from . import front
 from .faithful import analyse, flatten
 
 VERIF = os.path.dirname(os.path.dirname(os.path.abspath(__file__)))
-BUILD = os.path.join(VERIF, 'build')
+BUILD = os.path.join(os.environ.get('VERIF_OUT', VERIF), 'build')
 _CACHE = {}
 
 
